@@ -262,7 +262,36 @@ def _min_bag(t: Term) -> Tuple[Optional[Term], int, str]:
         return t[3][2], 0, "negated " + t[3][1]
     t, off = _peel_offset(t)
     if t[0] == "agg":
-        return t[2], off, t[1]
+        bag = t[2]
+        # min(min(X) - 1, u) is min over {x - 1 for x in X} and u: an unconditional inner min is flattened, its offset goes to its
+        # terms; then one common offset is taken out again (x - 1, u  ==  (x, u + 1) - 1)
+        if t[1] == "min" and T.strip(bag)[0] == "bag":
+            b = T.strip(bag)
+            flat = []
+            changed = False
+            for el in b[1]:
+                it, ioff = _peel_offset(T.strip(el[1]))
+                it = T.strip(it)
+                if it[0] == "agg" and it[1] == "min" and not it[3] and T.strip(it[2])[0] == "bag":
+                    for el2 in T.strip(it[2])[1]:
+                        tm = el2[1] if ioff == 0 else ("op", "+" if ioff > 0 else "-", el2[1], T.const(abs(ioff)))
+                        flat.append(("elem", tm, tuple(el[2]) + tuple(el2[2]), tuple(el[3]) + tuple(el2[3])))
+                    changed = True
+                else:
+                    flat.append(el)
+            if changed:
+                if off == 0:
+                    offs = [_peel_offset(T.strip(el[1]))[1] for el in flat]
+                    common = min(offs)
+                    if common != 0:
+                        flat2 = []
+                        for el in flat:
+                            base, o = _peel_offset(T.strip(el[1]))
+                            o -= common
+                            flat2.append(("elem", base if o == 0 else ("op", "+" if o > 0 else "-", base, T.const(abs(o))), el[2], el[3]))
+                        flat, off = flat2, common
+                bag = ("bag", tuple(flat)) + tuple(b[2:])
+        return bag, off, t[1]
     return None, off, ""
 
 
@@ -436,6 +465,20 @@ def _max_advance(ctx: Ctx, c: Collector, holder: str, heap: str) -> None:
         c.bad("sink", MAXADV, "return", "get_max_advance returns nothing", fi.loc)
         return
     asserted = {T.strip(a.term[1]) for a in s.of_kind("assert") if not a.iters}
+    if len(rets) > 1:
+        # a special case split off the general one: `if not <terms>: return until` in front of `return min(<terms> ...) - 1`. The
+        # general return is the sink (it must be complete by itself: with pending steps that all lie after `until`, the special
+        # case does not apply); the special one may only return `until`
+        general = [r0 for r0 in rets if any(x[0] == "agg" and x[1] in ("min", "max") for x in T.subterms((inline_calls(ctx.prog, fi.module.name, r0.term),)))]
+        special = [r0 for r0 in rets if r0 not in general]
+        ok_special = len(general) == 1 and all(
+            T.strip(r0.term) in untils or T.strip(r0.term) == ("op", "-", ("op", "+", untils[-1], T.const(1)), T.const(1)) for r0 in special) and all(
+            r0.guards and T.guard_term(r0.guards[-1])[0] == "not" and T.strip(T.guard_term(r0.guards[-1])[1])[0] in ("bag", "var") for r0 in special)
+        if ok_special:
+            drop = {T.negate(T.guard_term(r0.guards[-1])) for r0 in special} | {T.strip(T.guard_term(r0.guards[-1])[1]) for r0 in special}
+            g0 = general[0]
+            g0.guards = tuple(g for g in g0.guards if T.guard_term(g) not in drop)
+            rets = [g0]
     if len(rets) != 1 or any(not (g[2] and T.strip(g[1]) in asserted) for g in rets[0].guards):
         c.unk("sink", MAXADV, "return", "more than one return / conditional return", fi.loc)
         return
